@@ -724,11 +724,136 @@ def chainable(m: onnx.ModelProto, float_ins, float_outs) -> bool:
     return True
 
 
+def partner_model(v: int, rank: int = 1) -> onnx.ModelProto:
+    """A second model to inline next to m, written against opset v, spelled in the way that is valid ONLY around v:
+    Reduce*<axes attribute> below 18, Reduce*(axes input) from 18 on (ReduceSum: attribute below 13). float32 of any
+    shape of rank >= 1 in, same shape out: p(x) = x + reduce(x over axis 0, keepdims)."""
+    H, NH = onnx.helper, onnx.numpy_helper
+    kind = {11: "ReduceSum", 12: "ReduceSum", 13: "ReduceMean", 16: "ReduceL1", 17: "ReduceMax", 18: "ReduceMean", 19: "ReduceMax", 20: "ReduceMin", 21: "ReduceL1"}[v]
+    if v >= 18:
+        nodes = [H.make_node("Constant", [], ["ax"], value=NH.from_array(np.array([0], np.int64), "ax")),
+                 H.make_node(kind, ["px", "ax"], ["pr"], keepdims=1)]
+    else:
+        nodes = [H.make_node(kind, ["px"], ["pr"], axes=[0], keepdims=1)]
+    nodes.append(H.make_node("Add", ["px", "pr"], ["py"]))
+    vi = lambda n: H.make_tensor_value_info(n, TP.FLOAT, [None] * rank)  # noqa: E731
+    pm = H.make_model(H.make_graph(nodes, "partner", [vi("px")], [vi("py")]), opset_imports=[H.make_operatorsetid("", v)], ir_version=7 if v < 15 else 8)
+    onnx.checker.check_model(pm, full_check=True)
+    return pm
+
+
+PLACES = ["top", "then", "else", "loop", "nested"]
+
+
+def oracle_two_models(m: onnx.ModelProto, seed: int) -> list[tuple[str, str]]:
+    """TWO different inlined models (m and a partner written against another opset 11-21) in one program, each at the
+    top level / in a then / else branch / in a Loop body / nested two bodies deep, either order, the partner on m's result
+    or independent - and NO other operator that asks for a newer opset (If-16, Loop-16, Squeeze-13, Neg-13, Constant-13
+    only): the opset of the built model is decided by the inlined models alone. Both results, for both values of the
+    condition, must be what m and the partner compute. Model-free."""
+    from spox import Tensor, argument, build, inline
+
+    rng = random.Random(seed)
+    fails: list[tuple[str, str]] = []
+    before = m.SerializeToString(deterministic=True)
+    m_ref = fresh(before)
+    ins = [i.name for i in m.graph.input]
+    outs = [o.name for o in m.graph.output]
+    opset = next((o.version for o in m.opset_import if o.domain in ("", "ai.onnx")), 17)
+    float_ins = [i.name for i in m.graph.input if i.type.tensor_type.elem_type == TP.FLOAT]
+    float_outs = [o.name for o in m.graph.output if o.type.tensor_type.elem_type == TP.FLOAT]
+    vals1 = input_values(rng, m)
+    vals2 = {k: (np.asarray(-v) if v.dtype != np.bool_ else np.array(not bool(v))) for k, v in vals1.items()}
+    try:
+        d1 = dict(zip(outs, ort_run(m_ref, vals1)))
+        d2 = dict(zip(outs, ort_run(m_ref, vals2)))
+    except Exception as e:  # noqa: BLE001
+        raise Infra(f"onnxruntime cannot run m itself: {e}") from e
+    if not float_outs or not float_ins or np.asarray(d1[float_outs[0]]).ndim < 1 or np.asarray(d1[float_outs[0]]).size == 0 \
+            or vals1[float_ins[0]].ndim < 1 or vals1[float_ins[0]].size == 0:
+        return fails
+    link = float_outs[0]
+    pv = rng.choice([v for v in (11, 12, 13, 16, 17, 18, 18, 19, 20, 21, 21) if v != opset])
+    dependent_wish = rng.random() < 0.6
+    pm = None
+    where_m, where_p = rng.choice(PLACES), rng.choice(PLACES)
+    partner_first = rng.random() < 0.5
+    dependent = (not partner_first) and where_m == "top" and dependent_wish
+    pm = partner_model(pv, np.asarray(d1[link]).ndim if dependent else vals1[float_ins[0]].ndim)
+    label = f"two-models(m@{opset} {where_m}, partner@{pv} {where_p}, {'partner first' if partner_first else 'm first'}{', partner on m' if dependent else ''})"
+    op = L.opset_module(17)
+    try:
+        with warnings.catch_warnings():
+            warnings.simplefilter("ignore")
+            A = {i.name: argument(spox_type(concrete_for(m, i))) for i in m.graph.input}
+            c = argument(Tensor(np.bool_, ()))
+            f, g = inline(m), inline(pm)
+            negA = {n: (op.neg(A[n]) if n in float_ins else op.not_(A[n])) for n in ins}
+
+            def place(where, thunk, fallback):
+                if where == "top":
+                    return thunk()
+                if where == "then":
+                    return op.if_(c, then_branch=lambda: [thunk()], else_branch=lambda: [fallback()])[0]
+                if where == "else":
+                    return op.if_(c, then_branch=lambda: [fallback()], else_branch=lambda: [thunk()])[0]
+                if where == "nested":
+                    return op.if_(c, then_branch=lambda: [op.if_(c, then_branch=lambda: [thunk()], else_branch=lambda: [fallback()])[0]],
+                                  else_branch=lambda: [fallback()])[0]
+                (stacked,) = op.loop(op.const(np.array(1, np.int64)), None, v_initial=[], body=lambda i, cnd: [op.const(np.array(True)), thunk()])
+                return op.squeeze(stacked, op.const(np.array([0], np.int64)))
+
+            def do_m():
+                return place(where_m, lambda: f(*[A[n] for n in ins])[link], lambda: f(*[negA[n] for n in ins])[link])
+
+            holder: dict = {}
+
+            def do_p():
+                px = holder["m"] if dependent else A[float_ins[0]]
+                return place(where_p, lambda: g(px)["py"], lambda: op.neg(px))
+
+            if partner_first:
+                holder["p"] = do_p()
+                holder["m"] = do_m()
+            else:
+                holder["m"] = do_m()
+                holder["p"] = do_p()
+            built = build({**{f"arg_{j}": A[n] for j, n in enumerate(ins)}, "outer_cond": c}, {"res_m": holder["m"], "res_p": holder["p"]})
+    except Exception as e:  # noqa: BLE001
+        return [(classify_build_error(m, e), f"{label}: building raised {type(e).__name__}: {str(e)[:300]}")]
+    imports = [(o.domain, o.version) for o in built.opset_import]
+    for cv in (True, False):
+        taken_m = where_m in ("top", "loop") or (cv and where_m in ("then", "nested")) or (not cv and where_m == "else")
+        taken_p = where_p in ("top", "loop") or (cv and where_p in ("then", "nested")) or (not cv and where_p == "else")
+        exp_m = (d1 if taken_m else d2)[link]
+        px = exp_m if dependent else vals1[float_ins[0]]
+        try:
+            exp_p = ort_run(pm, {"px": np.asarray(px)})[0] if taken_p else -np.asarray(px)
+        except Exception as e:  # noqa: BLE001
+            raise Infra(f"onnxruntime cannot run the partner model: {e}") from e
+        try:
+            got = dict(zip([o.name for o in built.graph.output], ort_run(built, {**{f"arg_{j}": vals1[n] for j, n in enumerate(ins)}, "outer_cond": np.array(cv)})))
+        except Exception as e:  # noqa: BLE001
+            fails.append((f"outer-model-rejected:{type(e).__name__}", f"{label}: onnxruntime refuses the built model (imports {imports}): {str(e)[:300]}"))
+            break
+        bad = [k for k, ex in (("res_m", exp_m), ("res_p", exp_p)) if not same(got[k], ex)]
+        if bad:
+            k = bad[0]
+            key = converter_blame(m_ref, [vals1, vals2]) or "result-mismatch:two-models"
+            fails.append((key, f"{label}, cond={cv} (imports {imports}): output {k}: built {np.asarray(got[k]).tolist()} but the inlined model computes {np.asarray(exp_m if k == 'res_m' else exp_p).tolist()}"))
+            break
+    if m.SerializeToString(deterministic=True) != before:
+        fails.append(("m-modified", f"{label}: the caller's model changed"))
+    return fails
+
+
 def oracle_compose(m: onnx.ModelProto, form: str, seed: int) -> list[tuple[str, str]]:
     """Build an outer program around inline(m) and compare with m itself under onnxruntime.
     Returns a list of (key, description) failures of the property. Model-free."""
     from spox import Tensor, argument, build, inline
 
+    if form == "two-models":
+        return oracle_two_models(m, seed)
     rng = random.Random(seed)
     fails: list[tuple[str, str]] = []
     before = m.SerializeToString(deterministic=True)
@@ -1705,6 +1830,7 @@ def _oracle_phase(ck, models, snaps, rng, scope_obs):
             forms = ["once", "twice", "if-body", "chained", "mixed-opset"] if ck.thorough else ["once", rng.choice(["twice", "if-body", "chained", "mixed-opset"])]
         else:
             forms = list(FORMS) if (ck.thorough or meta["kind"] == "corner") else ["once"] + rng.sample(FORMS[1:], 3)
+        forms = list(forms) + ["two-models"] * (3 if ck.thorough else (2 if family else 1))
         for form in forms:
             if form == "chained" and "no-chain" in meta["features"]:
                 continue
